@@ -34,6 +34,10 @@ def in_contexts(x, K):
     yield ('seq', ('expect', x), K)
     yield ('seq', ('expectnot', x), K)
     yield ('seq', ('rep', ('seq', x, ('lit', ';')), None, None), K)
+    # inside a lookahead that is itself an alternative / an item to skip / one of the longest: the enclosing construct backs up
+    yield ('alt', ('expect', x), K)
+    yield ('seq', ('skip', ('expect', x)), K)
+    yield ('longest', ('expect', x), K)
 
 
 def name_forms(E):
